@@ -263,7 +263,7 @@ func (h *Handler) saveConfig(fname string) (err error) {
 	for _, v := range h.table {
 		if v.State == StateAllocated {
 			table.Leases = append(table.Leases, *v)
-		} else if v.State == StateDiscover && v.Addr.IP.IsValid() && v.DHCPExpiry.After(time.Now()) {
+		} else if v.State == StateDiscover && v.Addr.IP.IsValid() && !v.DHCPExpiry.Before(time.Now()) {
 			// the client is negotiating again but still holds an acknowledged lease
 			l := *v
 			l.State = StateAllocated
